@@ -1,6 +1,7 @@
 //! Per-property check definitions.
 use crate::runner::Check;
 
+pub mod c01;
 pub mod c02;
 
 #[derive(Clone, Copy, PartialEq, Eq, Debug)]
@@ -21,6 +22,7 @@ impl Tier {
 /// All checks of a property for this build configuration.
 pub fn checks(id: &str, tier: Tier) -> Option<Vec<Check>> {
     match id {
+        "C01" => Some(c01::checks(tier)),
         "C02" => Some(c02::checks(tier)),
         _ => None,
     }
